@@ -30,4 +30,6 @@ class ServiceBase(ABC):
             async for response_message in response_iter:
                 await stream.send_message(response_message)
         else:
-            response_iter.close()
+            # a coroutine: the method body contains no ``yield``. Run it - it sends no
+            # messages, but its side effects and any GRPCError it raises must not be lost
+            await response_iter
